@@ -2,8 +2,10 @@ package main
 
 import (
 	"fmt"
+	"go/constant"
 	"go/token"
 	"go/types"
+	"sort"
 	"strings"
 
 	"golang.org/x/tools/go/ssa"
@@ -896,12 +898,28 @@ func ruleTokenWidth(r *Run) {
 	takesLexer := func(fn *ssa.Function) bool {
 		return fn != nil && p.InModule(fn) && len(fn.Blocks) > 0 && len(fn.Params) > 0 && typeString(fn.Params[0].Type()) == "*lexer"
 	}
-	const unk = -1
-	type st struct {
-		b  *ssa.BasicBlock
-		pc int
-		w  int
+	const unk = -100
+	// known constants on a path: parameters bound at an inlined call, results of inlined helper calls
+	type cval struct {
+		known bool
+		v     int64
 	}
+	type outcome struct {
+		w   int
+		ret cval
+	}
+	type finding struct {
+		pos      token.Pos
+		fn       *ssa.Function
+		kind     int64
+		w, entry int
+	}
+	var bad []finding
+	type site struct {
+		pos  token.Pos
+		kind int64
+	}
+	checked := map[site]*ssa.Function{}
 	entry := map[*ssa.Function]map[int]bool{}
 	addEntry := func(fn *ssa.Function, w int) bool {
 		if entry[fn] == nil {
@@ -913,34 +931,123 @@ func ruleTokenWidth(r *Run) {
 		entry[fn][w] = true
 		return true
 	}
-	type finding struct {
-		pos   token.Pos
-		fn    *ssa.Function
-		kind  int64
-		w     int
-		entry int
+	changedEntries := false
+	evalC := func(env map[ssa.Value]cval, v ssa.Value) cval {
+		if c, ok := env[v]; ok {
+			return c
+		}
+		switch x := v.(type) {
+		case *ssa.Const:
+			if x.Value != nil {
+				if x.Value.Kind() == constant.Bool {
+					if constant.BoolVal(x.Value) {
+						return cval{true, 1}
+					}
+					return cval{true, 0}
+				}
+				if k, ok := constToInt(x.Value); ok {
+					return cval{true, k}
+				}
+			}
+		case *ssa.UnOp:
+			if x.Op == token.NOT {
+				if c, ok := env[x.X]; ok && c.known {
+					return cval{true, 1 - c.v}
+				}
+			}
+		}
+		return cval{}
 	}
-	var bad []finding
-	checked := map[ssa.Instruction]bool{}
-	var analyse func(fn *ssa.Function, w0 int, report bool) (changed bool)
-	analyse = func(fn *ssa.Function, w0 int, report bool) bool {
-		changed := false
-		seen := map[st]bool{}
-		work := []st{{fn.Blocks[0], 0, w0}}
+	// walk enumerates the ways through fn entered w0 runes into a token; helper methods of the lexer are inlined
+	// (their parameters bound to the caller's constants, their constant results known to the caller's branches),
+	// the grammar functions (lexX(l)) are entered at the width found at their call sites and hand back at a boundary
+	var walk func(fn *ssa.Function, w0 int, args map[ssa.Value]cval, report bool, depth int) []outcome
+	walk = func(fn *ssa.Function, w0 int, args map[ssa.Value]cval, report bool, depth int) []outcome {
+		type st struct {
+			b   *ssa.BasicBlock
+			pc  int
+			w   int
+			env map[ssa.Value]cval
+		}
+		keyOf := func(s st) string {
+			var ks []string
+			for k, v := range s.env {
+				if v.known {
+					ks = append(ks, fmt.Sprintf("%s=%d", k.Name(), v.v))
+				}
+			}
+			sort.Strings(ks)
+			return fmt.Sprintf("%d.%d.%d.%v", s.b.Index, s.pc, s.w, ks)
+		}
+		var outs []outcome
+		seenOut := map[outcome]bool{}
+		seen := map[string]bool{}
+		start := st{fn.Blocks[0], 0, w0, map[ssa.Value]cval{}}
+		for k, v := range args {
+			start.env[k] = v
+		}
+		work := []st{start}
+		steps := 0
 		for len(work) > 0 {
 			s := work[len(work)-1]
 			work = work[:len(work)-1]
-			if seen[s] {
-				continue
+			if steps++; steps > 20000 {
+				break
 			}
-			seen[s] = true
+			if k := keyOf(s); seen[k] {
+				continue
+			} else {
+				seen[k] = true
+			}
 			if s.pc >= len(s.b.Instrs) {
 				continue
 			}
 			in := s.b.Instrs[s.pc]
 			w := s.w
-			if c, ok := in.(ssa.CallInstruction); ok {
-				switch n := calleeName(c); n {
+			next := func(b *ssa.BasicBlock, pc int, w int, env map[ssa.Value]cval) {
+				if w != unk && (w > 6 || w < -6) {
+					w = unk
+				}
+				work = append(work, st{b, pc, w, env})
+			}
+			cloneEnv := func() map[ssa.Value]cval {
+				e := make(map[ssa.Value]cval, len(s.env))
+				for k, v := range s.env {
+					e[k] = v
+				}
+				return e
+			}
+			switch x := in.(type) {
+			case *ssa.If:
+				c := evalC(s.env, x.Cond)
+				switch {
+				case c.known && c.v != 0:
+					next(s.b.Succs[0], 0, w, s.env)
+				case c.known:
+					next(s.b.Succs[1], 0, w, s.env)
+				default:
+					next(s.b.Succs[0], 0, w, s.env)
+					next(s.b.Succs[1], 0, w, cloneEnv())
+				}
+				continue
+			case *ssa.Jump:
+				next(s.b.Succs[0], 0, w, s.env)
+				continue
+			case *ssa.Return:
+				o := outcome{w: w}
+				if len(x.Results) == 1 {
+					o.ret = evalC(s.env, x.Results[0])
+				}
+				if !seenOut[o] {
+					seenOut[o] = true
+					outs = append(outs, o)
+				}
+				continue
+			case *ssa.Panic:
+				continue
+			case ssa.CallInstruction:
+				cv, isVal := in.(ssa.Value)
+				switch n := calleeName(x); n {
 				case "(" + lexerT + ").next":
 					if w != unk {
 						w++
@@ -949,43 +1056,66 @@ func ruleTokenWidth(r *Run) {
 					if w != unk {
 						w--
 					}
-				case "(" + lexerT + ").acceptRun", "(" + lexerT + ").accept":
-					w = unk
-				case "(" + lexerT + ").errUnexpected", "(" + lexerT + ").errShort":
-					w = 0
 				case "(" + lexerT + ").emit":
-					if k, isC := constInt(c.Common().Args[1]); isC {
-						if want, isFixed := fixed[k]; isFixed && report {
-							checked[in] = true
+					if k := evalC(s.env, x.Common().Args[1]); k.known {
+						if want, isFixed := fixed[k.v]; isFixed && report {
+							checked[site{in.Pos(), k.v}] = fn
 							if w != want {
-								bad = append(bad, finding{in.Pos(), fn, k, w, w0})
+								bad = append(bad, finding{in.Pos(), fn, k.v, w, w0})
 							}
 						}
 					}
 					w = 0
 				default:
-					if callee := c.Common().StaticCallee(); takesLexer(callee) && !c.Common().IsInvoke() && callee.Signature.Recv() == nil {
-						if addEntry(callee, w) {
-							changed = true
-						}
-						w = 0 // lexer functions hand back at a token boundary
+					callee := x.Common().StaticCallee()
+					if !takesLexer(callee) || x.Common().IsInvoke() {
+						break
 					}
+					if callee.Signature.Recv() == nil {
+						// a grammar function
+						if addEntry(callee, w) {
+							changedEntries = true
+						}
+						w = 0
+						break
+					}
+					if depth > 4 {
+						w = unk
+						break
+					}
+					// a helper method of the lexer: inline
+					bound := map[ssa.Value]cval{}
+					for i, par := range callee.Params {
+						if i < len(x.Common().Args) {
+							if c := evalC(s.env, x.Common().Args[i]); c.known {
+								bound[par] = c
+							}
+						}
+					}
+					res := walk(callee, w, bound, report, depth+1)
+					if len(res) == 0 {
+						continue // never returns
+					}
+					for i, o := range res {
+						env := s.env
+						if i > 0 {
+							env = cloneEnv()
+						}
+						if isVal {
+							if o.ret.known {
+								env[cv] = o.ret
+							} else {
+								delete(env, cv)
+							}
+						}
+						next(s.b, s.pc+1, o.w, env)
+					}
+					continue
 				}
 			}
-			if w > 6 || w < -6 {
-				w = unk
-			}
-			switch in.(type) {
-			case *ssa.If, *ssa.Jump:
-				for _, sb := range s.b.Succs {
-					work = append(work, st{sb, 0, w})
-				}
-			case *ssa.Return, *ssa.Panic:
-			default:
-				work = append(work, st{s.b, s.pc + 1, w})
-			}
+			next(s.b, s.pc+1, w, s.env)
 		}
-		return changed
+		return outs
 	}
 	// roots: the two lexers are started at the beginning of their input
 	// (whatever lexer function is called from code that is not itself a lexer function: lexTemplate, lexPath today)
@@ -1013,57 +1143,58 @@ func ruleTokenWidth(r *Run) {
 		return
 	}
 	for round := 0; round < 12; round++ {
-		changed := false
-		for fn, ws := range entry {
-			for w := range ws {
-				if analyse(fn, w, false) {
-					changed = true
-				}
+		changedEntries = false
+		var fns []*ssa.Function
+		for fn := range entry {
+			fns = append(fns, fn)
+		}
+		for _, fn := range fns {
+			var ws []int
+			for w := range entry[fn] {
+				ws = append(ws, w)
+			}
+			for _, w := range ws {
+				walk(fn, w, nil, false, 0)
 			}
 		}
-		if !changed {
+		if !changedEntries {
 			break
 		}
 	}
 	for fn, ws := range entry {
 		for w := range ws {
-			analyse(fn, w, true)
+			walk(fn, w, nil, true, 0)
 		}
 	}
-	// stable keys: function/emit:kind#n, n counting the emits of that kind in the function in source order
-	ordinal := map[token.Pos]string{}
-	for fn := range entry {
-		cnt := map[int64]int{}
-		eachInstr(fn, func(in ssa.Instruction) {
-			if c, ok := in.(ssa.CallInstruction); ok && calleeName(c) == "("+lexerT+").emit" {
-				if k, isC := constInt(c.Common().Args[1]); isC {
-					cnt[k]++
-					ordinal[in.Pos()] = fmt.Sprintf("%s/emit:%s#%d", shortFunc(fn), names[k], cnt[k])
-				}
-			}
-		})
+	// stable keys: function/emit:kind#n, n counting the checked emits of that kind in the function in source order
+	var sites []site
+	for s := range checked {
+		sites = append(sites, s)
 	}
-	flagged := map[ssa.Instruction]bool{}
+	sort.Slice(sites, func(i, j int) bool { return sites[i].pos < sites[j].pos })
+	ordinal := map[site]string{}
+	cnt := map[string]int{}
+	for _, s := range sites {
+		k := shortFunc(checked[s]) + "/emit:" + names[s.kind]
+		cnt[k]++
+		ordinal[s] = fmt.Sprintf("%s#%d", k, cnt[k])
+	}
+	isBad := map[site]bool{}
 	for _, f := range bad {
+		s := site{f.pos, f.kind}
+		if isBad[s] {
+			continue
+		}
+		isBad[s] = true
 		got := fmt.Sprint(f.w)
 		if f.w == unk {
 			got = "an open number of"
 		}
-		key := ordinal[f.pos]
-		r.bad(key, f.pos, "%s is emitted after %s rune(s) were consumed since the previous token (the function entered %d rune(s) into a token); its text is fixed at %d: the token swallows input the grammar gives to other tokens", names[f.kind], got, f.entry, fixed[f.kind])
+		r.bad(ordinal[s], f.pos, "%s is emitted after %s rune(s) were consumed since the previous token (the function entered %d rune(s) into a token); its text is fixed at %d: the token swallows input the grammar gives to other tokens", names[f.kind], got, f.entry, fixed[f.kind])
 	}
-	for in := range checked {
-		isBad := false
-		for _, f := range bad {
-			if f.pos == in.Pos() {
-				isBad = true
-			}
-		}
-		if !isBad && !flagged[in] {
-			flagged[in] = true
-			c := in.(ssa.CallInstruction)
-			k, _ := constInt(c.Common().Args[1])
-			r.ok(ordinal[in.Pos()], in.Pos(), "emitted after exactly %d rune(s) on every path", fixed[k])
+	for _, s := range sites {
+		if !isBad[s] {
+			r.ok(ordinal[s], s.pos, "emitted after exactly %d rune(s) on every path", fixed[s.kind])
 		}
 	}
 	if len(checked) == 0 {
